@@ -57,6 +57,7 @@ var Stubs = map[string]StubFn{}
 // ExecStd lists standard-library functions simple enough to be executed from their own SSA.
 var ExecStd = map[string]bool{
 	"(*fmt.wrapError).Unwrap":       true,
+	"(*strconv.NumError).Unwrap":    true,
 	"(encoding/json.Number).String": true,
 	"(encoding/json.Delim).String":  true,
 	"(time.Month).String":           false,
@@ -504,6 +505,9 @@ func (ex *Exec) harnessPrim(fr *frame, st *State, fn *ssa.Function, args []Value
 			ex.Known[nm] = c
 			ex.KnownOrder = append(ex.KnownOrder, nm)
 		}
+		return ret(nil)
+	case "vRecordGlobals":
+		ex.RecordGlobals = true
 		return ret(nil)
 	case "vNoOutcomeMerge":
 		ex.NoOutcomeMerge = true
